@@ -4,7 +4,7 @@ CONSTANTS
   Asset = {"a0", "a5"}
   PnLs <- PnLsQuick
   Costs = {10}
-  Bals = {5, 7}
+  Bals = {5}
   Vals = {}
   MaxClosed = 4
   MaxBal = 1
